@@ -79,6 +79,11 @@ Proof. reflexivity. Qed.
 
 (* LazyFlushable: the parent counts as empty until the first Flush, which installs the produced
    store and writes the overlay into it *)
+(* InitUnderlyingDb (no flush): from then on reads see the overlay over the PRODUCED store *)
+Theorem view_lazy_init o i u : view (st_init (Lzy o i u)) = merge_overlay o (view u) /\
+  (wf_st (Lzy o i u) -> wf_st (st_init (Lzy o i u))).
+Proof. split; [reflexivity|cbn; tauto]. Qed.
+
 Theorem view_lazy_flush ideal o i u : wf_st (Lzy o i u) ->
   exists u', st_flush ideal (Lzy o i u) = Lzy [] true u' /\ view u' = merge_overlay o (view u) /\ wf_st u'.
 Proof.
